@@ -175,6 +175,13 @@ def make_classes(sc):
         return d
     body = {"s0": State(initial=True)}
     kw = {"cond" if sc["expected"] else "unless": sc["text"]}
+    if sc.get("second"):
+        k2 = "cond" if sc["second"]["expected"] else "unless"
+        kw[k2] = [kw[k2], sc["second"]["text"]] if k2 in kw else sc["second"]["text"]
+    if sc.get("async_engine"):
+        async def on_go(self):
+            return None
+        body["on_go"] = on_go        # a coroutine action: the machine runs on the async engine
     if sc.get("extra") == "same_list":        # a second, resolvable entry in the same list
         kw = {k: [NAMES[6], v] for k, v in kw.items()}
     elif sc.get("extra") == "same_list_after":
@@ -248,11 +255,16 @@ def run_impl(sc):
                 out = 2
             except Exception as e:  # noqa: BLE001
                 out = 9
-            try:
-                ref = eval(sc["canon"], {"__builtins__": {}}, {NAMES[n]: pyv(v) for n, v in ENV.items()})  # noqa: S307
-                refc = 1 if bool(ref) == sc["expected"] else 0
-            except TypeError:
-                refc = 2
+            refc = 1
+            for canon, expected in sorted([(sc["canon"], sc["expected"])] + ([(sc["second"]["canon"], sc["second"]["expected"])] if sc.get("second") else []),
+                                          key=lambda ce: not ce[1]):
+                if refc != 1:
+                    break
+                try:
+                    ref = eval(canon, {"__builtins__": {}}, {NAMES[n]: pyv(v) for n, v in ENV.items()})  # noqa: S307
+                    refc = 1 if bool(ref) == expected else 0
+                except TypeError:
+                    refc = 2
             steps.append({"impl": out, "reads": list(LOG), "ref": refc})
         return {"construct": "ok", "steps": steps}
 
@@ -302,7 +314,11 @@ def coq_case(sc, obs):
     for env, s in zip(sc["envs"], obs["steps"]):
         ev = "[" + "; ".join(f"({n}, {cq_val(v)})" for n, v in env.items()) + "]"
         steps.append(f"st {ev} {s['impl']} [{'; '.join(map(str, s['reads']))}] {s['ref']}")
-    return (f"(wf ({cq_expr(sc['ast'])}, {b(sc['expected'])}, [{'; '.join(map(str, logged))}], true, "
+    entries = [(sc["ast"], sc["expected"])] + ([(sc["second"]["ast"], sc["second"]["expected"])] if sc.get("second") else [])
+    entries.sort(key=lambda e: not e[1])          # cond entries are registered before unless entries
+    es = "[" + "; ".join(f"({cq_expr(a)}, {b(x)})" for a, x in entries) + "]"
+    isasync = bool(sc.get("async_engine"))
+    return (f"(wf ({es}, [{'; '.join(map(str, logged))}], {b(isasync)}, {b(not isasync)}, "
             f"[{'; '.join(steps)}]))")
 
 
@@ -333,8 +349,52 @@ def gen_case(rng, depth):
         # ordering comparisons are modelled for numbers, booleans and strings (None and mixed kinds raise
         # TypeError in the model as in Python); lists are kept out of expressions that compare
         envs.append({str(n): rng.choice(CMP_VALUES + [None] if cmpy else VALUES) for n in used})
-    return {"ast": a, "canon": canon, "text": text, "expected": rng.random() < 0.7, "provide": provide,
-            "envs": envs}
+    sc = {"ast": a, "canon": canon, "text": text, "expected": rng.random() < 0.7, "provide": provide,
+          "envs": envs}
+    if rng.random() < 0.3:
+        # a second entry on the same transition over the same names: the same tree with and/or swapped
+        # at the top, or another random expression
+        def swap(e):
+            if e[0] == "and":
+                return ["or", e[1]]
+            if e[0] == "or":
+                return ["and", e[1]]
+            return ["not", e]
+        t2 = swap(tree) if rng.random() < 0.6 else gen_expr(rng, 2, nm)
+        c2 = render(t2, None)
+        a2 = from_ast(ast.parse(c2, mode="eval").body)
+        if not has_cmp(a2) or cmpy:
+            for n in names_in(a2, []):
+                if str(n) not in provide:
+                    provide[str(n)] = (rng.choice([0, 0, 1, 2]), rng.choice(["property", "method", "attr"]))
+                    for env in envs:
+                        env[str(n)] = rng.choice(CMP_VALUES + [None] if cmpy else VALUES)
+            sc["second"] = {"ast": a2, "canon": c2, "text": render(t2, alt, rng) if alt else c2,
+                            "expected": rng.random() < 0.5}
+            # two entries whose expressions print to the same key (same operands and operators in the
+            # same order, whatever the grouping) are de-duplicated by the executor: keep them apart
+            def flat(e):
+                if e[0] == "n":
+                    return [NAMES[e[1]]]
+                if e[0] == "c":
+                    return [repr(e[1])]
+                if e[0] == "not":
+                    return ["not"] + flat(e[1])
+                if e[0] in ("and", "or"):
+                    out = []
+                    for i, x in enumerate(e[1]):
+                        out += ([e[0]] if i else []) + flat(x)
+                    return out
+                out = flat(e[1])
+                for op, x in e[2]:
+                    out += [op] + flat(x)
+                return out
+            if flat(a2) == flat(a):
+                del sc["second"]
+    if rng.random() < 0.3 and not cmpy and not (sc.get("second") and has_cmp(sc["second"]["ast"])):
+        sc["async_engine"] = True      # (comparisons may raise TypeError, whose fate among several
+                                       #  concurrently evaluated guards is left open)
+    return sc
 
 
 def exhaustive_small():
@@ -383,6 +443,16 @@ def generate(rng, tier):
     parts.append(("random expressions (depth 1..4 quick / 6 thorough: names containing v/not/and/or, constants, "
                   "chained comparisons, either spelling, 0-2 spaces, redundant parentheses), names provided as "
                   "property / method / attribute on machine / model / listener, 1-4 valuations each", n))
+    # two valid entries that differ only in grouping (known finding D20)
+    import ast as _ast
+    t1, t2 = ["and", [["n", 6], ["or", [["n", 0], ["n", 1]]]]], ["or", [["and", [["n", 6], ["n", 0]]], ["n", 1]]]
+    scs.append({"ast": from_ast(_ast.parse(render(t1, None), mode="eval").body), "canon": render(t1, None),
+                "text": render(t1, None), "expected": True, "collide": True,
+                "second": {"ast": from_ast(_ast.parse(render(t2, None), mode="eval").body), "canon": render(t2, None),
+                           "text": render(t2, None), "expected": True},
+                "provide": {"6": (0, "property"), "0": (0, "property"), "1": (0, "property")},
+                "envs": [{"6": True, "0": False, "1": True}, {"6": False, "0": False, "1": True}]})
+    parts.append(("probe: two valid guard expressions on one transition that differ only in grouping", 1))
     mal = []
     for t in MALFORMED:
         for expected in (True, False):
@@ -427,4 +497,8 @@ def render_source(sc):
             f"# names provided as: { {NAMES[int(n)]: v for n, v in sc['provide'].items()} }\n")
 
 
-CLASSIFIERS = {}
+def d20(sc, v):
+    return bool(sc.get("collide")) and v == 2
+
+
+CLASSIFIERS = {"C08.entries_differing_only_in_grouping": d20}
